@@ -102,6 +102,14 @@ func runC09(c *Ctx) {
 	ruleAllColumns(c, p, "C09.all-columns")
 	ruleKeyWidth(c, p, "C09.keywidth")
 	ruleInferByName(c, p, "C09.infer-name")
+	ruleAutoKeepsCompatible(c, p, "C09.auto-keeps")
+	// what a round's block carries is what the column encoders of the build in use write
+	for _, cf := range c.Configs() {
+		if pc := c.Prog(cf); pc != nil {
+			ruleBufGrowByAppend(c, pc, "C09.grow")
+			ruleEveryElement(c, pc, "C09.every")
+		}
+	}
 	c.R.Assumptions = append(c.R.Assumptions,
 		"(*proto.Writer).Flush writes synchronously (net.Buffers.WriteTo) and drops every reference afterwards (C09.writer.* = the C14 induction steps)",
 		"decided: order of encode / flush / callback / terminator on all paths; not decided: byte equality of each block with the snapshot taken inside the callback")
